@@ -284,7 +284,7 @@ def segmentation(ctx):
             skips = {'start': b, 'other': e}
     R.check(skips == {'start': [('pdu', '4', None)], 'other': [('pdu', '2', None)]}, rule, f'{ERTM}.on_pdu | header skip', 'START skips control(2)+length(2), others skip control(2)', f'payload offsets on receive: {skips}', p.loc(onp))
     deliver = [n for n in walk_local(onp) if isinstance(n, ast.If) and 'control_field.sar in' in norm(n.test)]
-    ok = len(deliver) == 1 and '.END' in norm(deliver[0].test) and '.UNSEGMENTED' in norm(deliver[0].test) and any(dotted(c.func) == 'self.channel.on_sdu' for c in calls_in(deliver[0])) and any(isinstance(x, ast.Assign) and dotted(x.targets[0]) == 'self._in_sdu' for x in deliver[0].body)
+    ok = len(deliver) == 1 and '.END' in norm(deliver[0].test) and '.UNSEGMENTED' in norm(deliver[0].test) and any(dotted(c.func) == 'self.channel.on_sdu' for c in calls_in(deliver[0])) and any(isinstance(x, ast.Assign) and any(dotted(t) == 'self._in_sdu' or (isinstance(t, ast.Tuple) and any(dotted(e_) == 'self._in_sdu' for e_ in t.elts)) for t in x.targets) for x in deliver[0].body)
     R.check(ok, rule, f'{ERTM}.on_pdu | delivery', 'SDU delivered and buffer reset on END/UNSEGMENTED', 'SDU delivery condition changed', p.loc(onp))
 
 
